@@ -67,15 +67,20 @@ def main():
   if a.names:
     idx = [m for m in idx if any(n in m['file'] for n in a.names)]
   bad = 0
+  results = []
   with cf.ThreadPoolExecutor(max_workers=a.jobs) as ex:
     for m, status, out, dt in ex.map(lambda m: run_one(m, a.tier, a.seed), idx):
       print('%-52s %-10s %-22s %5.1fs' % (m['file'], ','.join(m['properties']), status, dt))
+      results.append({'file': m['file'], 'properties': m['properties'], 'what': m.get('what'), 'status': status, 'wall_s': round(dt, 1)})
       sys.stdout.flush()
       if not status.startswith('CAUGHT'):
         bad += 1
         if a.v or True:
           print('   ' + out.replace('\n', '\n   ')[-1200:])
   print('%d mutants, %d not caught' % (len(idx), bad))
+  if not a.only and not a.names:
+    with open(os.path.join(VERIF, 'mutants', 'last_selftest.json'), 'w') as f:
+      json.dump({'tier': a.tier, 'seed': a.seed, 'results': results}, f, indent=1)
   return 1 if bad else 0
 
 
